@@ -469,7 +469,8 @@ def rule_k_use(ctx):
 
 
 def rule_k_field(ctx):
-    R = RuleResult("K-field", "every composite iterator is built with its main-side field from the main table and its old-side field from the old table/cursor")
+    R = RuleResult("K-field", "every composite iterator is built with its main-side field from the main table and its old-side field from the old table/cursor; "
+                   "a literal None reaches the old-side field only where no old table is pending")
     ro = ctx.roles
     for b in ctx.facts.bodies.values():
         for loc, st in b.all_assigns():
@@ -490,6 +491,57 @@ def rule_k_field(ctx):
                 if not known_unsplit:
                     none_const = False
                     os_ = "a literal None although an old table may be pending"
+            # .. and on no path may the old-side value be a made-up None (`if self.len() < 2 { None } else { self.leftovers() }`): every literal None
+            # that can reach the field sits on the None edge of a test of the resize state
+            if os_ == OLD and not none_const:
+                from rules_typestate import left_test_edges, N as N_
+                n_edges = [e for e, v in left_test_edges(ctx, b, ignore_debug=False).items() if v == N_]
+                opt_edge_src = {}
+                # .. or on the None arm of a match that maps an Option value (`match self.leftovers.take() { Some(lo) => Some(..), None => None }`):
+                # the None edge of any test of an Option's discriminant
+                for bb_ in b.reachable():
+                    t_ = b.term(bb_)
+                    if t_["k"] != "switch":
+                        continue
+                    d_ = b.source_def(t_["discr"])
+                    if d_ is not None and d_[1] == "assign" and d_[2]["rv"]["k"] == "discr" \
+                            and ctx.facts.types[d_[2]["rv"]["place"]["ty"]].get("adt") == "core::option::Option":
+                        zero = [tb for v, tb in t_["targets"] if v == 0]
+                        q_ = d_[2]["rv"]["place"]
+                        e_ = (bb_, zero[0]) if zero else ((bb_, t_["otherwise"]) if all(v == 1 for v, _ in t_["targets"]) else None)
+                        if e_ is not None:
+                            n_edges.append(e_)
+                            if not q_["proj"]:
+                                opt_edge_src[e_] = q_["local"]      # the value whose absence that edge reflects must not be made up either
+                seen_l, work_l, bad_none = set(), [], None
+                if oop["k"] in ("copy", "move") and not oop["place"]["proj"]:
+                    work_l.append(oop["place"]["local"])
+                while work_l and bad_none is None:
+                    l_ = work_l.pop()
+                    if l_ in seen_l or l_ == 0 or 1 <= l_ <= b.arg_count:
+                        continue
+                    seen_l.add(l_)
+                    for d_ in b.defs().get(l_, []):
+                        if b.is_cleanup(d_[0].bb):
+                            continue
+                        if d_[1] == "assign":
+                            rv_ = d_[2]["rv"]
+                            if rv_["k"] == "use" and rv_["op"]["k"] in ("copy", "move") and not rv_["op"]["place"]["proj"]:
+                                work_l.append(rv_["op"]["place"]["local"])
+                            elif rv_["k"] == "aggregate" and rv_.get("adt") == "core::option::Option" and rv_.get("variant") == "None":
+                                doms = [e for e in n_edges if edge_dominates(b, e, d_[0].bb)]
+                                if not doms:
+                                    bad_none = d_[0]
+                                for e in doms:
+                                    if e in opt_edge_src:
+                                        work_l.append(opt_edge_src[e])
+                        elif d_[1] == "call":
+                            cc_ = ctx.call_at(b, d_[0].bb)
+                            if cc_ is not None and (cc_.name or "").startswith("core::option::Option::") and cc_.args and cc_.args[0]["k"] in ("copy", "move") \
+                                    and not cc_.args[0]["place"]["proj"] and cc_.method in ("map", "and_then", "filter", "or", "or_else", "take", "as_ref", "as_mut", "cloned", "copied"):
+                                work_l.append(cc_.args[0]["place"]["local"])
+                if bad_none is not None:
+                    os_ = "a made-up None on some path (%s) although an old table may be pending" % b.where(bad_none)
             ok = ms == MAIN and (os_ == OLD or none_const)
             R.inst(fn=b.path, site=b.where(loc), adt=rv["adt"], main_field_from=ms, old_field_from=os_ or ("None" if none_const else None),
                    verdict="ok" if ok else "VIOLATION")
